@@ -46,6 +46,8 @@ NEG = {  # seeded defect -> invariants that may reject it
     "resetunlesssame": {"NoCarryOver", "LaterRendersUnaffected", "NilMeansComplete", "FaultMeansError", "Prefix"},
 }
 NEG_EXTRA = {"resetunlesssame": {"SameWriter": "= TRUE"}}
+# no error handler after a script expression inside a JS string literal
+NEG["noexprcheckinlit"] = {"Prefix", "NilMeansComplete", "FaultMeansError"}
 
 
 BNEG = {"gohtml_err_put_noreset", "release_noreset"}   # RenderIOBytes.tla: seeded defects of the bytes.Buffer pool protocol
@@ -182,7 +184,7 @@ def rand_prog(rng, depth, budget, own_ok=True):
     ops, used = [], 0
     while used < budget and (not ops or rng.random() < 0.8):
         left = budget - used
-        kinds = ["L", "L", "E", "E", "leaf", "slot"]
+        kinds = ["L", "L", "E", "E", "leaf", "slot", "X"]
         if depth > 1 and left >= 2:
             kinds += ["call", "flush", "call", "flush", "hcb0", "hcb1", "hcb1"]
         if depth > 1 and left >= 3:
@@ -196,6 +198,8 @@ def rand_prog(rng, depth, budget, own_ok=True):
             ops.append(("leaf", rng.choice([2, 4]), [], [])); used += 1
         elif k == "slot":
             ops.append(("slot", 0, [], [])); used += 1
+        elif k == "X":
+            ops.append(("X", rng.choice([1, 2, 3]), [], [])); used += 1
         elif k in ("call", "flush"):
             a, n = rand_prog(rng, depth - 1, left - 1, own_ok)
             ops.append((k, 0, a, [])); used += 1 + n
@@ -256,7 +260,7 @@ def main():
         "mc2": dict(module="MCRenderIO", cfg="a.cfg", workers=16 if thorough else 6, timeout=1500,
                     files={"a.cfg": cfg("RenderIO_mc.cfg", Emit="= TRUE", MaxOps="= %d" % (4 if thorough else 3))}),
         "mc3": dict(module="MCRenderIO", cfg="b.cfg", workers=4, timeout=1500,
-                    files={"b.cfg": cfg("RenderIO_mc.cfg", Emit="= TRUE", Caps="= {3}", LitSizes="= {1, 2, 5}",
+                    files={"b.cfg": cfg("RenderIO_mc.cfg", Emit="= TRUE", Caps="= {3}", LitSizes="= {1, 2, 5}", XKinds="= {1, 2, 3}",
                                         ExprSizes="= {2, 4}", LeafSizes="= {4}", MaxOps="= %d" % (3 if thorough else 2))}),
         "seq": dict(module="MCRenderIO", cfg="c.cfg", workers=8 if thorough else 4, timeout=1500,
                     files={"c.cfg": cfg("RenderIO_seq.cfg", Emit="= TRUE",
@@ -490,6 +494,8 @@ def main():
               "depend on the absolute size, only on write sizes relative to it (<, =, > Cap are all explored)")
     ck.assume("a short or zero write without error (io.Writer contract violation) is followed by (0, error) on every later call; "
               "a writer that returns (0, nil) forever makes bufio.Writer loop, which is outside the property")
+    ck.assume("expression kinds with their own generated error path: text { e }, attribute name={ e }, script {{ e }} outside and inside a "
+              "JS string literal (all with a (string, error) call); css / style / spread / conditional attribute expressions are not driven")
     ck.assume("expression/leaf faults are identified by evaluation order; documents are ASCII (EscapeString is the identity on them)")
     ck.assume("bytes.Buffer pool replay: all renders run on one goroutine, so sync.Pool's per-P slot returns the object of the last Put; "
               "measured from the hook events (fails closed if it never happened)")
